@@ -142,6 +142,19 @@ static void lowlevel(World &w, int reps) {
         uint64_t hv = fast_hash(v->coefsT, 4 * N), hb = fast_hash(bara.data(), 4 * n);
         VH_OP("tfhe_blindRotateAndExtract_FFT:%s", w.cfg.c_str()); tfhe_blindRotateAndExtract_FFT(u, v, w.ck->bkFFT->bkFFT, (int) rng.below(2 * N), bara.data(), n, tg); after("tfhe_blindRotateAndExtract_FFT");
         VH_OP("tfhe_blindRotateAndExtract:%s", w.cfg.c_str()); tfhe_blindRotateAndExtract(u2, v, w.ck->bk->bk, (int) rng.below(2 * N), bara.data(), n, tg); after("tfhe_blindRotateAndExtract");
+        // the boundary values of the rotation amount (0: nothing to rotate, N: sign change only) and of the exponents
+        for (int barb: {0, 1, N - 1, N, N + 1, 2 * N - 1}) {
+            for (int i = 0; i < n; i++) bara[i] = barb == 1 ? 0 : (int32_t) rng.below(2 * N);      // once with all exponents zero
+            hb = fast_hash(bara.data(), 4 * n);
+            VH_OP("tfhe_blindRotateAndExtract_FFT:barb=%d:%s", barb, w.cfg.c_str()); tfhe_blindRotateAndExtract_FFT(u, v, w.ck->bkFFT->bkFFT, barb, bara.data(), n, tg);
+            out.evaluations++;
+            if (fast_hash(v->coefsT, 4 * N) != hv) { out.viol("untouched:test-polynomial-modified:tfhe_blindRotateAndExtract_FFT", J().s("config", w.cfg).i("barb", barb)); for (int j = 0; j < N; j++) v->coefsT[j] = rng.i32(); hv = fast_hash(v->coefsT, 4 * N); }
+            VH_OP("tfhe_blindRotateAndExtract:barb=%d:%s", barb, w.cfg.c_str()); tfhe_blindRotateAndExtract(u2, v, w.ck->bk->bk, barb, bara.data(), n, tg);
+            out.evaluations++;
+            if (fast_hash(v->coefsT, 4 * N) != hv) { out.viol("untouched:test-polynomial-modified:tfhe_blindRotateAndExtract", J().s("config", w.cfg).i("barb", barb)); for (int j = 0; j < N; j++) v->coefsT[j] = rng.i32(); hv = fast_hash(v->coefsT, 4 * N); }
+            if (fast_hash(bara.data(), 4 * n) != hb) out.viol("untouched:exponent-vector-modified:tfhe_blindRotateAndExtract", J().s("config", w.cfg).i("barb", barb));
+        }
+        after("tfhe_blindRotateAndExtract(boundary rotation amounts)");
         out.evaluations++;
         if (fast_hash(v->coefsT, 4 * N) != hv) out.viol("untouched:test-polynomial-modified:tfhe_blindRotateAndExtract", J().s("config", w.cfg));
         if (fast_hash(bara.data(), 4 * n) != hb) out.viol("untouched:exponent-vector-modified:tfhe_blindRotateAndExtract", J().s("config", w.cfg));
